@@ -954,8 +954,9 @@ def recursion_part(ctx, rnd):
             if compare_rec(g, r2) != d:
                 raise vlib.MachineryError("recursion case not reproducible: %s" % d)
             nbad += 1
-            kinds = "+".join(sorted({k for es in g["edges"] for (_, k) in es}))
-            ctx.violation("recursion:%s/%s" % ("on" if g["rec"] else "off", kinds), "%s | %s" % (d, c["src"].replace("\n", "; ")[:400]),
+            # signature: the option and the kind of the call site whose target is already active (none: no re-entry in the model)
+            ctx.violation("recursion:%s/%s" % ("on" if g["rec"] else "off", g["failkind"] if g["fail"] else "no-reentry"),
+                          "%s | graph %s | %s" % (d, json.dumps(g["edges"]), c["src"].replace("\n", "; ")[:400]),
                           {"kind": "recursion", "graph": g})
     ctx.log("recursion rule: %d graph runs executed, %d must fail with 'called recursively', %d divergent" % (len(graphs), nfail, nbad))
     ctx.cov["recursion_runs"] = len(graphs)
